@@ -65,6 +65,40 @@ def translate(repo):
                         and n.func.attr == '_send')
     incr_in_loop = sum(1 for n in ast.walk(loops[0]) if isinstance(n, ast.AugAssign) and isinstance(n.op, ast.Add)
                        and isinstance(n.target, ast.Attribute) and n.target.attr in ('_in_flight', 'in_flight'))
+    # Host.reset(): which controller-reported numbers the three queues are built from, and the shared-buffer rule
+    hostc = _cls(host, 'Host')
+    reset = _fn(hostc, 'reset')
+    queues = {}
+    shares = False
+    for n in ast.walk(reset):
+        if isinstance(n, ast.Assign) and len(n.targets) == 1 and isinstance(n.targets[0], ast.Attribute) \
+                and isinstance(n.targets[0].value, ast.Name) and n.targets[0].value.id == 'self':
+            tgt = n.targets[0].attr
+            if tgt in ('acl_packet_queue', 'le_acl_packet_queue', 'iso_packet_queue'):
+                v = n.value
+                if isinstance(v, ast.Call) and isinstance(v.func, ast.Name) and v.func.id == 'DataPacketQueue':
+                    kw = {k.arg: ast.unparse(k.value) for k in v.keywords}
+                    if tgt in queues:
+                        raise RuntimeError(f'Host.reset: {tgt} built twice')
+                    queues[tgt] = (kw.get('max_packet_size'), kw.get('max_in_flight'), kw.get('send'))
+                elif isinstance(v, ast.Attribute) and ast.unparse(v) == 'self.acl_packet_queue' and tgt == 'le_acl_packet_queue':
+                    shares = True
+                elif isinstance(v, ast.Constant) and v.value is None:
+                    pass
+                else:
+                    raise RuntimeError(f'Host.reset: unrecognised assignment to {tgt}: {ast.unparse(v)}')
+    want = {
+        'acl_packet_queue': ('hc_acl_data_packet_length', 'hc_total_num_acl_data_packets', 'self.send_hci_packet'),
+        'le_acl_packet_queue': ('le_acl_data_packet_length', 'total_num_le_acl_data_packets', 'self.send_hci_packet'),
+        'iso_packet_queue': ('iso_data_packet_length', 'total_num_iso_data_packets', 'self.send_hci_packet'),
+    }
+    queues_ok = queues == want
+    # the sharing rule: `if le_acl_data_packet_length == 0 or total_num_le_acl_data_packets == 0: le queue = acl queue`
+    share_cond_ok = False
+    for n in ast.walk(reset):
+        if isinstance(n, ast.If) and ast.unparse(n.test) == 'le_acl_data_packet_length == 0 or total_num_le_acl_data_packets == 0':
+            body = [ast.unparse(x) for x in n.body]
+            share_cond_ok = body == ['self.le_acl_packet_queue = self.acl_packet_queue']
     pipe = _cls(utils, 'FlowControlAsyncPipe')
     w, pause, resume, pump = (_fn(pipe, n) for n in ('write', 'pause', 'resume', 'pump'))
     p_in = _one_of(w, ['queue'], ['append', 'appendleft'])
@@ -78,13 +112,16 @@ Record shape := mkShape {{
   q_sends_per_iteration : nat; q_increments_per_iteration : nat;
   q_enqueue_pumps : bool; q_flush_pumps : bool; q_completed_pumps : bool;   (* each calls _check_queue() *)
   p_in_side : side; p_out_side : side;        (* FlowControlAsyncPipe.write / pump *)
-  p_write_checks : bool; p_pause_checks : bool; p_resume_checks : bool; p_pump_checks : bool  (* check_pump() *)
+  p_write_checks : bool; p_pause_checks : bool; p_resume_checks : bool; p_pump_checks : bool;  (* check_pump() *)
+  h_queues_from_reported_buffers : bool;      (* Host.reset builds each queue from the controller-reported length/count *)
+  h_le_shares_acl_queue_when_no_le_buffers : bool  (* LE buffer size 0/0 => le queue IS the acl queue *)
 }}.
 Definition shape_of_source : shape := mkShape
   {'SLeft' if q_in == 'appendleft' else 'SRight'} {'SLeft' if q_out == 'popleft' else 'SRight'}
   {_b(loop_ok)} {sends_in_loop} {incr_in_loop}
   {_b(_calls(enq, ['_check_queue']) >= 1)} {_b(_calls(flush, ['_check_queue']) >= 1)} {_b(_calls(done, ['_check_queue']) >= 1)}
   {'SLeft' if p_in == 'appendleft' else 'SRight'} {'SLeft' if p_out == 'popleft' else 'SRight'}
-  {_b(_calls(w, ['check_pump']) >= 1)} {_b(_calls(pause, ['check_pump']) >= 1)} {_b(_calls(resume, ['check_pump']) >= 1)} {_b(_calls(pump, ['check_pump']) >= 1)}.
+  {_b(_calls(w, ['check_pump']) >= 1)} {_b(_calls(pause, ['check_pump']) >= 1)} {_b(_calls(resume, ['check_pump']) >= 1)} {_b(_calls(pump, ['check_pump']) >= 1)}
+  {_b(queues_ok)} {_b(shares and share_cond_ok)}.
 '''
     return text
